@@ -316,3 +316,10 @@ def run(ctx):
                             bad.append("%s %s: #[serde(%s)]" % (e["item"], e.get("field", e.get("variant", "")), k))
         ctx.ob("C18-e", "no value-changing #[serde(..)] attribute on the %d scanned items/fields" % seen_items, not bad and seen_items > 0, ROOT,
                "ast-serde-attrs", detail="; ".join(bad) or "no items scanned")
+    # "samples identically" also needs the restored sampler's behaviour to be a function of the restored fields only: no per-process /
+    # per-thread state that a getter or the sampling entries consult (a thread-local cache keyed by a buffer address survives the
+    # original and is hit by the restored table).  Restated from C17-b/c/d.
+    from .restate import run_restated
+    run_restated(ctx, [("C17", {"C17-b": "no interior mutability anywhere in the sampler's type",
+                                "C17-c": "no static mut / thread_local / non-Freeze static in the crate",
+                                "C17-d": "no ambient-state callee reachable from the sampling entries and getters"})])
